@@ -139,17 +139,22 @@ public:
         // Build levels
         auto n_levels = levels_offsets.size() - 1;
         first_key = *first;
+        // Size of the ith level (i >= 1) as seen by the level above, i.e. without the segment starting at the sentinel
+        auto indexed_size = [&](size_t i) {
+            auto size = levels_offsets[i] - levels_offsets[i - 1];
+            return size - (segments[levels_offsets[i] - 1].get_first_x() == sentinel);
+        };
         if constexpr (EpsilonRecursive > 0) {
             auto root = *std::prev(levels_offsets.end(), 2);
             std::tie(root_slope, root_intercept) = segments[root].get_floating_point_segment(first_key);
-            root_range = n_levels == 1 ? n : levels_offsets[n_levels - 1] - levels_offsets[n_levels - 2];
+            root_range = n_levels == 1 ? n : indexed_size(n_levels - 1);
         }
 
         levels.reserve(n_levels - 1);
         for (int i = EpsilonRecursive == 0 ? 1 : n_levels - 1; i > 0; --i) {
             auto l = levels_offsets[i - 1];
             auto r = levels_offsets[i];
-            auto prev_level_size = i == 1 ? n : l - levels_offsets[i - 2];
+            auto prev_level_size = i == 1 ? n : indexed_size(i - 1);
             levels.emplace_back(segments.begin() + l, segments.begin() + r,
                                 intercepts.begin() + l, intercepts.begin() + r,
                                 map.begin() + l, map.begin() + r,
